@@ -6,6 +6,7 @@ spec/C11/OneCopyObs.tla   P-level trace spec: folds the events recorded from rea
 spec/C11/TwoPC.tla        M-spec: acceptor / proposer / network regions of twopc.go, sender times, faults
 spec/C11/MCTwoPC.tla      model-checking wrapper + scopes; MC*.cfg exhaustive / simulation configurations
 spec/C11/DWReplay.tla     the double-winner schedule replayed on the model with / without the filter
+spec/C11/LCReplay.tla     the lost-Commit schedule replayed on the model with / without the Commit retry
 spec/C11/TwoPCTrace.tla   M-level trace spec (conformance; a case that cannot be followed is model drift)
 harness/cmd/c11drv        gating ReplicaHandle over the real RPC and in-process transports, scripted
                           (TLC schedules) and seeded random schedules, drain, observations, solo phase
@@ -134,6 +135,8 @@ def run(chk):
         job("MC3 exhaustive: 3 replicas, 2 writers x 1 section + solo phase (M => P)", "MC3")
         job("DWReplay with the sender-time filter: the double-winner schedule cannot be followed", "DWReplayFilter",
             module="DWReplay", workers=1)
+        job("LCReplay with the Commit retry: the lost-Commit schedule cannot be followed", "LCReplayRetry",
+            module="LCReplay", workers=1)
         if not quick:
             job("MC2 exhaustive: 2 replicas, 2 writers x 2 sections, drop 1, duplicate 1", "MC2")
             job("MC3Faults exhaustive: 3 replicas, drop 1, duplicate 1", "MC3Faults", timeout=3000)
@@ -158,7 +161,8 @@ def run(chk):
         os.makedirs(os.path.join(d, "b"), exist_ok=True)
         pre[key] = (V.tlc(d, module, cfg=cfg + ".cfg", deadlock=False, **kw), d)
     pths = [threading.Thread(target=prejob, args=("dw", "DWReplay", "DWReplayNoFilter"), kwargs=dict(workers=1, timeout=900)),
-            threading.Thread(target=prejob, args=("rel", "MCTwoPC", "MC3PinnedRPC"), kwargs=dict(workers=2, timeout=900))]
+            threading.Thread(target=prejob, args=("rel", "MCTwoPC", "MC3PinnedRPC"), kwargs=dict(workers=2, timeout=900)),
+            threading.Thread(target=prejob, args=("lc", "LCReplay", "LCReplayNoRetry"), kwargs=dict(workers=1, timeout=900))]
     for cfg, n, writers, num in sims:
         pths.append(threading.Thread(target=prejob, args=(cfg, "MCTwoPC", cfg), kwargs=dict(
             workers=2, timeout=1200, simulate="file=b/t,num=%d" % max(1, num // 2), depth=160, seed=seed * 1000 + n)))
@@ -176,6 +180,12 @@ def run(chk):
     if not chk.notes["model_capture_with_pointer_identity"]:
         chk.inconclusive.append("vacuity: the model with pointer identity no longer captures a replica: " + str(res.error or res.violation))
     rel_acts = acts_of(res.out)
+    res = pre["lc"][0]
+    chk.tlc_jobs.append(res.summary("LCReplay without the Commit retry (expected: SoloProgress violated on the model)"))
+    chk.notes["model_lost_commit_blocks_writer"] = bool(res.violation and "SoloProgress" in res.violation)
+    if not chk.notes["model_lost_commit_blocks_writer"]:
+        chk.inconclusive.append("vacuity: the model without the Commit retry no longer blocks the writer: " + str(res.error or res.violation))
+    lc_acts = acts_of(res.out)
     scripts = []
     for cfg, n, writers, num in sims:
         res, d = pre[cfg]
@@ -201,6 +211,8 @@ def run(chk):
                 w = [a[1] for a in rel_acts if a[0] == "read"]
                 other = 1 if (w and w[0] == 2) else 2
                 cases.append(dict(script_case("rel", 3, [1, 2], rel_acts, tr, seed), solo=other))
+            if len(lc_acts) > 5:
+                cases.append(dict(script_case("lostcommit", 3, [1, 2], lc_acts, tr, seed), solo=1))
             for name, n, writers, acts in scripts:
                 cases.append(script_case(name, n, writers, acts, tr, seed))
             plan = [(2, [1, 2], 6), (3, [1, 2], 10), (3, [1, 2, 3], 8), (4, [1, 2, 3], 8), (5, [1, 2, 3], 6)] if quick else \
@@ -261,7 +273,7 @@ def run(chk):
 
         def one(tr):
             mine = [s for s in good if s[0].get("tr") == tr]
-            mine.sort(key=lambda s: 0 if s[0].get("case", "").startswith(("dw-", "rel-")) else 1)
+            mine.sort(key=lambda s: 0 if s[0].get("case", "").startswith(("dw-", "rel-", "lostcommit-")) else 1)
             boxes[tr] = V.fold_traces(work, "OneCopyObs", "OneCopyObs.cfg", mine, timeout=2400,
                                       chunks=2 if quick else 5, max_rounds=6)
         ts = [threading.Thread(target=one, args=(tr,)) for tr in sorted({s[0].get("tr") for s in good})]
